@@ -42,6 +42,10 @@ pub struct FixR<'a, const N: usize> {
     pub ops: u32,
     /// operations with index >= fail_from fail (u32::MAX = never)
     pub fail_from: u32,
+    /// every operation that touches or targets a position >= fail_pos fails (u64::MAX = never): a fault placed by
+    /// stream position rather than by operation index, so that it hits the same section in builds whose
+    /// operation counts differ (stubbed vs real parser)
+    pub fail_pos: u64,
     pub failed: bool,
     pub frag: bool,
     /// lowest / highest+1 byte touched by reads in window A and B (two windows: before/after `mark`)
@@ -56,7 +60,7 @@ pub struct FixR<'a, const N: usize> {
 #[cfg(any(kani, verif_replay))]
 impl<'a, const N: usize> FixR<'a, N> {
     pub fn new(buf: &'a [u8; N], len: u64) -> Self {
-        Self { buf, len, pos: 0, ops: 0, fail_from: u32::MAX, failed: false, frag: false, lo: u64::MAX, hi: 0,
+        Self { buf, len, pos: 0, ops: 0, fail_from: u32::MAX, fail_pos: u64::MAX, failed: false, frag: false, lo: u64::MAX, hi: 0,
                forbid_lo: 0, forbid_hi: 0, touched_forbidden: false }
     }
     fn op(&mut self) -> Result<()> {
@@ -74,6 +78,10 @@ impl<'a, const N: usize> FixR<'a, N> {
 impl<'a, const N: usize> Read for FixR<'a, N> {
     fn read(&mut self, out: &mut [u8]) -> Result<usize> {
         self.op()?;
+        if self.pos >= self.fail_pos {
+            self.failed = true;
+            return Err(Error::from(ErrorKind::Other));
+        }
         let avail = if self.pos < self.len { (self.len - self.pos) as usize } else { 0 };
         let want = if out.len() < avail { out.len() } else { avail };
         let n = frag_len(self.frag, want);
@@ -125,11 +133,16 @@ impl<'a, const N: usize> FixR<'a, N> {
 impl<'a, const N: usize> Seek for FixR<'a, N> {
     fn seek(&mut self, s: SeekFrom) -> Result<u64> {
         self.op()?;
-        match s {
-            SeekFrom::Start(p) => self.pos = p,
-            SeekFrom::Current(d) => self.pos = (self.pos as i64).wrapping_add(d) as u64,
-            SeekFrom::End(d) => self.pos = (self.len as i64).wrapping_add(d) as u64,
+        let target = match s {
+            SeekFrom::Start(p) => p,
+            SeekFrom::Current(d) => (self.pos as i64).wrapping_add(d) as u64,
+            SeekFrom::End(d) => (self.len as i64).wrapping_add(d) as u64,
+        };
+        if target >= self.fail_pos {
+            self.failed = true;
+            return Err(Error::from(ErrorKind::Other));
         }
+        self.pos = target;
         Ok(self.pos)
     }
 }
